@@ -26,9 +26,9 @@ func init() {
 		Level: "exploration",
 		Cases: func(t string) int {
 			if t == "thorough" {
-				return 400000
+				return 800000
 			}
-			return 24000
+			return 60000
 		},
 		Batch:  func(t string) int { return 600 },
 		Floors: []string{"roundtrips", "independent_decodes", "xvariant_digests_joined", "pair_PLAIN/BOOLEAN", "pair_RLE/INT32", "pair_RLE/LEVELS", "pair_RLE/BOOLEAN", "pair_RLE_DICTIONARY/INT32", "pair_DELTA_BINARY_PACKED/INT32", "pair_DELTA_BINARY_PACKED/INT64", "pair_DELTA_LENGTH_BYTE_ARRAY/BYTE_ARRAY", "pair_DELTA_BYTE_ARRAY/BYTE_ARRAY", "pair_DELTA_BYTE_ARRAY/FIXED_LEN_BYTE_ARRAY", "pair_BYTE_STREAM_SPLIT/FLOAT", "pair_BYTE_STREAM_SPLIT/DOUBLE", "pair_BIT_PACKED/LEVELS", "dst_reused_dirty"},
